@@ -152,3 +152,45 @@ Definition valid_frame (k : kind) (dec : bytes -> dres) (c : cfg) (f : frame) : 
    (a frame for a unit that is not served only has to be skipped, whatever its PDU) *)
 Definition stream_frame (k : kind) (dec : bytes -> dres) (c : cfg) (f : frame) : Prop :=
   frame_wf k f /\ (spec_accepts k c (f_uid f) = true -> is_msg (dec (f_pdu f)) = true).
+
+(* ---- PDU length defined by the function code (Modbus Application Protocol v1.1b3, section 6) ---
+   "an MBAP length consistent with the PDU": the length field must be 1 + the length the
+   protocol defines for this function code in this direction — a fixed size, or a size given by
+   the byte-count field at a fixed position.  [None]: no prefix-stable rule is stated here
+   (diagnostics FC 8, FIFO response FC 24, encapsulated interface FC 43, user-defined codes);
+   the oracle does not constrain those.  server = true: requests; false: responses. *)
+Definition counted (pdu : bytes) (pos : nat) (base : Z) : option Z :=
+  match nth_error pdu pos with Some b => Some (base + Z.of_N b) | None => Some base end.
+
+Definition spec_pdu_len (server : bool) (pdu : bytes) : option Z :=
+  match pdu with
+  | [] => None
+  | fc :: _ =>
+      if server then
+        match Z.of_N fc with
+        | 1 | 2 | 3 | 4 | 5 | 6 => Some 5          (* address + quantity / value *)
+        | 7 | 11 | 12 | 17 => Some 1                (* function code only *)
+        | 15 | 16 => counted pdu 5 6                (* address, quantity, byte count, data *)
+        | 20 | 21 => counted pdu 1 2                (* byte count, sub-requests *)
+        | 22 => Some 7                              (* address, and-mask, or-mask *)
+        | 23 => counted pdu 9 10                    (* read addr/qty, write addr/qty, byte count, data *)
+        | 24 => Some 3                              (* FIFO pointer address *)
+        | _ => None
+        end
+      else if (128 <=? fc)%N then Some 2            (* exception response: code *)
+      else
+        match Z.of_N fc with
+        | 1 | 2 | 3 | 4 | 12 | 17 | 20 | 21 | 23 => counted pdu 1 2      (* byte count, data *)
+        | 5 | 6 | 11 | 15 | 16 => Some 5
+        | 7 => Some 2
+        | 22 => Some 7
+        | _ => None
+        end
+  end.
+
+Definition pdu_len_ok (server : bool) (pdu : bytes) : bool :=
+  match spec_pdu_len server pdu with Some n => Z.of_nat (length pdu) =? n | None => true end.
+
+(* the C07 reference receiver for TCP: an MBAP frame in the input AND a PDU of the defined length *)
+Definition justified_dir (k : kind) (server : bool) (input : bytes) (d : delivery) : bool :=
+  justified k input d && match k with KTcp => pdu_len_ok server (d_pdu d) | _ => true end.
